@@ -1999,6 +1999,8 @@ def FNodup (f : String → Option GRec) : Prop := ∀ n r, f n = some r → r.un
 
 def OpsNodup (ops : List Op) : Prop := ∀ op ∈ ops, OpNodup op
 
+instance (ops : List Op) : Decidable (OpsNodup ops) := by unfold OpsNodup; infer_instance
+
 theorem fnodup_upd_some {f : String → Option GRec} (h : FNodup f) (n : String) (r : GRec) (hr : r.unicodes.Nodup) :
     FNodup (upd f n (some r)) := by
   intro k x hk
